@@ -638,22 +638,22 @@ void *h3byp_realloc(void *ptr, size_t size) {
 // ignored (counted) instead of aborting the process, so that a defective tree
 // still yields a reference result and the defect is judged on the simulated
 // side.
-#include <unordered_set>
+#include <unordered_map>
 namespace {
-std::unordered_set<void *> g_refLive;
+std::unordered_map<void *, size_t> g_refLive;  // block -> requested size
 int64_t g_refBadFrees = 0;
 }  // namespace
 int64_t refallocBadFrees() { return g_refBadFrees; }
 int64_t refallocLive() { return (int64_t)g_refLive.size(); }
 void refallocSweep() {
-    for (void *p : g_refLive) free(p);
+    for (auto &kv : g_refLive) free(kv.first);
     g_refLive.clear();
     g_refBadFrees = 0;
 }
 extern "C" {
 void *refalloc_malloc(size_t n) {
     void *p = calloc(1, n ? n : 1);
-    if (p) g_refLive.insert(p);
+    if (p) g_refLive[p] = n;
     return p;
 }
 void *refalloc_calloc(size_t a, size_t b) {
@@ -671,14 +671,18 @@ void refalloc_free(void *p) {
 }
 void *refalloc_realloc(void *p, size_t n) {
     if (!p) return refalloc_malloc(n);
-    if (!g_refLive.count(p)) {
+    auto it = g_refLive.find(p);
+    if (it == g_refLive.end()) {
         g_refBadFrees++;
         return nullptr;
     }
+    size_t old = it->second;
     void *q = realloc(p, n ? n : 1);
     if (q) {
         g_refLive.erase(p);
-        g_refLive.insert(q);
+        g_refLive[q] = n;
+        // the model of the default allocator is "memory never used before reads as zero": the grown tail too
+        if (n > old) memset((uint8_t *)q + old, 0, n - old);
     }
     return q;
 }
